@@ -10,6 +10,7 @@ THEOREMS = [
     'Sourcer.C05_rule_outcome',
     'Sourcer.C05_where_apply_class',
     'Sourcer.C05_shadowing_breaks_it',
+    'Sourcer.C05_specification_layers_agree',
     'Tie.binders_agree',
 ]
 TIE_MODULES = ['Tie.Binders']
